@@ -6,7 +6,7 @@ from __future__ import annotations
 
 import ast
 
-from ..core.terms import (c, evaluate, fn_name, kw, make_inliner, n, pretty, subterms)
+from ..core.terms import (cmp_, not_, pc, phi_, c, evaluate, fn_name, kw, make_inliner, n, pretty, subterms)
 from ..domains import concrete
 from .common import LIB_FACTS, is_call, method, short
 
@@ -318,7 +318,7 @@ def check(ctx):
     if pk is not None and pk[0] == "comp" and pk[1] == "list":
         (tgt, src, conds) = pk[3][0]
         ok = (pk[2] == ("iter", src) and len(conds) == 1
-              and conds[0] == ("cmp", "not in", ("iter", src), ("a", SELF, "positions_excluded"))
+              and conds[0] == cmp_("not in", ("iter", src), ("a", SELF, "positions_excluded"))
               and src[0] in ("list", "loop", "n", "carried"))
         ext = [t for t, _, _ in rb.calls if t[1][0] == "a" and t[1][2] == "extend"]
         ok = ok and any(t[2] == (("a", SELF, "positions_included"),) for t in ext) \
